@@ -490,6 +490,9 @@ func (f *Form) IsLinearIn(atoms []string) bool {
 }
 
 func (f *Form) String() string {
+	if f == nil {
+		return "<none>"
+	}
 	if d, ok := f.D.constVal(); ok && d.Cmp(big.NewRat(1, 1)) == 0 {
 		return f.N.String()
 	}
@@ -498,6 +501,9 @@ func (f *Form) String() string {
 
 // Key is a canonical textual key (used to build atom keys of applications).
 func (f *Form) Key() string {
+	if f == nil {
+		return "<none>"
+	}
 	if d, ok := f.D.constVal(); ok && d.Cmp(big.NewRat(1, 1)) == 0 {
 		return f.N.keyString()
 	}
